@@ -4,4 +4,5 @@ let table = [
   ("tbls", Model.entry_tbls);
   ("framing", Model.entry_framing);
   ("queryloop", Model.entry_queryloop);
+  ("stages", Model.entry_stages);
 ]
